@@ -48,21 +48,24 @@ type reqD struct {
 	ContOK   bool     `json:"contok,omitempty"` // ContinueHandler answer
 	Rd       string   `json:"rd"`               // none | upto | eof
 	K        int      `json:"k,omitempty"`
-	Fin      string   `json:"fin"` // none | detach | timeout | hijack | connclose
+	Fin      string   `json:"fin"`              // none | detach | timeout | hijack | connclose
 	Detach   int      `json:"detach,omitempty"` // 0 CloseBodyStream 1 ResetBody 2 SetBodyString
+	AltAt    int      `json:"altat,omitempty"`  // chunked: raw body offset where CRLF + last-chunk + a smuggle unit are embedded in the chunk data
+	AltSid   int      `json:"altsid,omitempty"` // number of that unit
 }
 
 type desc struct {
-	Stream   bool   `json:"stream"`
-	Max      int    `json:"max"`
-	GetOnly  bool   `json:"getonly,omitempty"`
-	PrePar   bool   `json:"preparse"`
-	ExpectH  bool   `json:"expecth,omitempty"`
-	ContH    bool   `json:"conth,omitempty"`
-	NoKA     bool   `json:"noka,omitempty"`
-	Reduce   bool   `json:"reduce,omitempty"` // ReduceMemoryUsage (not in the model: must not matter)
-	ReadStep int    `json:"readstep,omitempty"`
-	Reqs     []reqD `json:"reqs"`
+	Stream   bool     `json:"stream"`
+	Max      int      `json:"max"`
+	GetOnly  bool     `json:"getonly,omitempty"`
+	PrePar   bool     `json:"preparse"`
+	ExpectH  bool     `json:"expecth,omitempty"`
+	ContH    bool     `json:"conth,omitempty"`
+	NoKA     bool     `json:"noka,omitempty"`
+	Reduce   bool     `json:"reduce,omitempty"` // ReduceMemoryUsage (not in the model: must not matter)
+	ReadStep int      `json:"readstep,omitempty"`
+	Reqs     []reqD   `json:"reqs,omitempty"`
+	Conns    [][]reqD `json:"conns,omitempty"` // several connections one after the other (shared requestStream pool)
 }
 
 // ---------------------------------------------------------------------------
@@ -146,6 +149,14 @@ func buildReq(r reqD) wireReq {
 		}
 		b.WriteString(r.ZeroLine + "\r\n\r\n")
 		body = b.Bytes()
+		if r.AltAt > 0 {
+			// what a reader sees that takes the first AltAt raw bytes for chunk data: end of chunk, last-chunk, a request
+			emb := []byte("\r\n" + r.ZeroLine + "\r\n\r\n" + unit(r.AltSid))
+			if r.AltAt+len(emb) > len(body) {
+				panic("alt embedding does not fit")
+			}
+			copy(body[r.AltAt:], emb)
+		}
 	default:
 		panic("bad framing " + r.Fr)
 	}
@@ -223,10 +234,12 @@ func pathID(p string) int {
 
 var readBuf = make([]byte, 1<<20)
 
-func serveCase(d desc) []string {
+func serveCase(d desc) []string { return serveConn(d, d.Reqs) }
+
+func serveConn(d desc, reqs []reqD) []string {
 	progs := map[int]reqD{}
 	var in bytes.Buffer
-	for _, r := range d.Reqs {
+	for _, r := range reqs {
 		progs[r.ID] = r
 		w := buildReq(r)
 		in.Write(w.head)
@@ -444,10 +457,14 @@ func reqCoq(d desc, r reqD) string {
 	case "eof":
 		rd = "REOF"
 	}
+	alt := "None"
+	if r.AltAt > 0 {
+		alt = hlib.Some(hlib.Tuple(hlib.Z(int64(r.AltAt)), hlib.Z(int64(r.AltSid))))
+	}
 	fin := map[string]string{"none": "FinNone", "detach": "FinDetach", "timeout": "FinTimeout", "hijack": "FinHijack", "connclose": "FinConnClose"}[r.Fin]
 	getlike := r.Method == "GET" || r.Method == "HEAD"
 	return hlib.App("mkReq", hlib.Z(int64(r.ID)), hlib.Z(int64(len(w.head))), hlib.Bool(getlike), hlib.Bool(r.Close), hlib.Bool(r.Expect),
-		fr, mp, optZ(r.truncated(), r.Cut-1), hlib.Z(int64(r.ExpSt)), hlib.Bool(r.ContOK), rd, fin)
+		fr, mp, optZ(r.truncated(), r.Cut-1), hlib.Z(int64(r.ExpSt)), hlib.Bool(r.ContOK), rd, fin, "O", alt)
 }
 
 func cfgCoq(d desc) string {
@@ -627,6 +644,12 @@ func genReq(r *rand.Rand, d desc, id int, last bool) reqD {
 }
 
 func gen(r *rand.Rand, i int) desc {
+	if i%25 == 7 {
+		K := 20 + r.Intn(3000)
+		k := r.Intn(K - 10)
+		S := K - k + 60 + r.Intn(500)
+		return twoStep(hlib.Pick(r, []int{1000, 10000, 20000}), K, k, S, 1+r.Intn(3), r.Intn(2) == 0, hlib.Pick(r, []string{"none", "eof", "upto"}))
+	}
 	d := desc{Stream: r.Intn(3) != 0, Max: hlib.Pick(r, []int{64, 1000, 8192, 8193, 10000, 20000}), PrePar: r.Intn(4) != 0, Reduce: r.Intn(4) == 0}
 	if r.Intn(20) == 0 {
 		d.GetOnly = true
@@ -668,8 +691,43 @@ func sentinel(id int) reqD {
 	return reqD{ID: id, Method: "GET", Fr: "none", Rd: "none", Fin: "none"}
 }
 
+// twoStep: connection 1 abandons a streamed chunked body k bytes into a chunk of K bytes (the peer goes away, or the
+// handler reads k bytes and detaches the stream); connection 2 sends ONE well-formed chunk whose data carries, at raw
+// body offset K-k, CRLF + last-chunk + a request-looking unit, and a pipelined sentinel.  If anything of the first
+// stream's chunk state survived in the pooled requestStream object, the second body ends early and the unit is
+// dispatched.  A few rounds, since sync.Pool may drop objects.
+func twoStep(max, K, k, S, rounds int, byHandler bool, victimRd string) desc {
+	d := desc{Stream: true, Max: max, PrePar: true}
+	line := func(n int) string { return strconv.FormatInt(int64(n), 16) }
+	for i := 0; i < rounds; i++ {
+		att := reqD{ID: 1, Method: "POST", Fr: "chunked", Chunks: []chunkD{{Size: K, Line: line(K)}}, ZeroLine: "0", Rd: "eof", Fin: "none"}
+		conn1 := []reqD{att}
+		if byHandler {
+			att.Rd, att.K, att.Fin, att.Detach = "upto", k, "detach", i%3
+			conn1 = []reqD{att, sentinel(2)}
+		} else {
+			att.Cut = 1 + len(line(K)) + 2 + k
+			if i%2 == 1 {
+				att.Rd = "none"
+			}
+			conn1 = []reqD{att}
+		}
+		vic := reqD{ID: 1, Method: "POST", Fr: "chunked", Chunks: []chunkD{{Size: S, Line: line(S)}}, ZeroLine: "0", Rd: victimRd, Fin: "none",
+			AltAt: K - k, AltSid: 7 + i}
+		d.Conns = append(d.Conns, conn1, []reqD{vic, sentinel(2)})
+	}
+	return d
+}
+
 func corpus() []desc {
 	var c []desc
+	for _, byHandler := range []bool{false, true} {
+		for _, vr := range []string{"none", "eof"} {
+			c = append(c, twoStep(10000, 200, 60, 400, 3, byHandler, vr))
+			c = append(c, twoStep(10000, 5000, 4900, 300, 2, byHandler, vr))
+			c = append(c, twoStep(1000, 64, 1, 200, 2, byHandler, vr))
+		}
+	}
 	one := func(d desc, q reqD) {
 		q.ID = 1
 		if q.ZeroLine == "" {
@@ -744,7 +802,33 @@ func corpus() []desc {
 	return c
 }
 
+func runMulti(d desc) hlib.Case {
+	var conns, impls []string
+	tot := 0
+	sig := "multi"
+	for _, reqs := range d.Conns {
+		evs := serveConn(d, reqs)
+		var rs []string
+		for _, r := range reqs {
+			rs = append(rs, reqCoq(d, r))
+			tot += dataLen(r)
+			sig += "|" + r.Fr + ":" + r.Rd + ":" + r.Fin
+			if r.truncated() {
+				sig += ":cut"
+				break
+			}
+		}
+		sig += "=>" + strconv.Itoa(len(evs))
+		conns = append(conns, hlib.List(rs))
+		impls = append(impls, hlib.List(evs))
+	}
+	return hlib.Case{Coq: hlib.App("C02Multi", cfgCoq(d), hlib.List(conns), hlib.List(impls)), Sig: sig, Kind: "multi", Size: tot}
+}
+
 func run(d desc) hlib.Case {
+	if len(d.Conns) > 0 {
+		return runMulti(d)
+	}
 	evs := serveCase(d)
 	var rs []string
 	tot := 0
